@@ -83,7 +83,7 @@ def step0 (st : St) (toks : List String) : St × String :=
     | some q => (st, both (QObj.apply st.s q) (Spec.sem st.t q))
     | none => (st, "bad-op")
   | ["obs"] => (st, obs st)
-  | ["tags"] => (st, "tags " ++ tags st.s)
+  | ["tags"] => (st, "tags " ++ tags st.s ++ " ## tags-any")   -- the property leaves the representation free
   | ["repr", d] =>
     match d.toInt? with
     | some d =>
